@@ -119,6 +119,8 @@ func (s *Service) handleSubmitSyncCommitteeContributionsError(ctx context.Contex
 		}
 		for i := range len(resp.Failures) {
 			switch {
+			case resp.Failures[i] == nil:
+				s.log.Trace().Str("beacon_node_address", address).Int("index", i).Msg("Empty failure entry; treating as real lighthouse error")
 			case strings.HasPrefix(resp.Failures[i].Message, "Verification: AggregatorAlreadyKnown"):
 				s.log.Trace().Str("beacon_node_address", address).Int("index", resp.Failures[i].Index).Msg("Contribution and proof already received for that slot; ignoring")
 				allowedFailures++
